@@ -287,8 +287,8 @@ where
     }
     let layers = ref_layers::<H>(&leaves, cap_height);
     let mut positions: Vec<usize> = if n <= 32 { (0..n).collect() } else { (0..10).map(|_| rng.gen_range(0..n)).chain([0, 1, n - 1, n / 2, n / 2 - 1]).collect() };
-    if run.micro() && positions.len() > 2 {
-        positions = vec![positions[rng.gen_range(0..positions.len())], *positions.last().unwrap()];
+    if run.micro() && positions.len() > 1 {
+        positions = vec![positions[rng.gen_range(0..positions.len())]];
     }
     for &i in &positions {
         let proof = match catch(|| tree.prove(i)) {
